@@ -22,11 +22,11 @@ _ATTRIBUTE_PATTERN = re.compile(
         # OID string
         (?:
             # Number without leading 0 (except 0 itself)
-            (?:[0-9])|(?:[1-9][0-9]*)
+            0|(?:[1-9][0-9]*)
         )
         (?:
             # Optionally repeated but with . as separator
-            \.(?:(?:[0-9])|(?:[1-9][0-9]*))
+            \.(?:0|(?:[1-9][0-9]*))
         )*
     )
 )
